@@ -115,6 +115,8 @@ def build_jobs(t, sd):
             fams += gen_fields.field_probes(mode, v)
             if v >= 4:
                 fams += gen_subs.sub_family(mode, v, thorough)
+                if mode == "A" and (thorough or v in (6, 8)):
+                    fams += [x for x in gen_subs.abi_sub_family(mode, v) if thorough or "abi-fact" not in x[0]]
             if v >= 3 and mode == "A":
                 fams += gen_opt.opt_family(mode, v, False)[:: (2 if thorough else 7)]
                 fams += gen_const.const_family(mode, v, sd, False)[::3]
